@@ -71,6 +71,7 @@ def verify_function(c, seed=0, timeout_ms=20000, only_labels=None):
     res = Result(c.key)
     t0 = time.time()
     S._qcount[0] = 0
+    S.CURRENT_TU[0] = c.tu
     try:
         if c.custom is not None:
             res.func = c.name
